@@ -42,7 +42,10 @@ class R:
         self.gdecl = ("<" + ", ".join(([lt] if lt else []) + self.gnames) + ">") if gs else ""
         self.gwhere = ""
         if gs:
-            preds = [f"{g['name']}: {g.get('bound', 'svmon::Param')} + " + (g["extra_bound"] + " + " if g.get("extra_bound") else "") + "'static" for g in gs]
+            hl = prog.get("hrtb_lt", "'de")
+            hrtb = (f"{sv}::serde::Serialize + for<{hl}> {sv}::serde::Deserialize<{hl}> + Clone + std::fmt::Debug + PartialEq + "
+                    f"{sv}::schemars::JsonSchema")
+            preds = [f"{g['name']}: {g.get('bound') or (hrtb if g.get('hrtb') else 'svmon::Param')} + " + (g["extra_bound"] + " + " if g.get("extra_bound") else "") + "'static" for g in gs]
             self.gwhere = " where " + ", ".join(preds)
         # concrete contract type, usable in type and expression position
         self.conc = (["'static"] if (lt and gs) else []) + [g["concrete"] for g in gs]
@@ -142,7 +145,12 @@ class R:
             items.append("        type ExecC: CustomMsg;")
             items.append("        type QueryC: CustomQuery;")
         for (an, _) in part.get("assoc", []):
-            items.append(f"        type {an}: svmon::Param;")
+            if part.get("assoc_hrtb"):
+                # the bound written out with a higher-ranked lifetime of the user's choosing
+                hl, sv_ = part["assoc_hrtb"], self.sv
+                items.append(f"        type {an}: {sv_}::serde::Serialize + for<{hl}> {sv_}::serde::Deserialize<{hl}> + Clone + std::fmt::Debug + PartialEq + {sv_}::schemars::JsonSchema;")
+            else:
+                items.append(f"        type {an}: svmon::Param;")
         hs = self._ordered(part)
         for h in hs:
             for l in self._msg_attr(h):
